@@ -180,6 +180,9 @@ def _join(sep, arg, env):
                 out.append(("lit", sep))
             out += of_expr(x, env)
             first = False
+        elif isinstance(x, (ast.ListComp, ast.GeneratorExp)):
+            ent = comp_entry(x)
+            out.append(("rep", _merge([("lit", sep)] + ent[1]), ent[2]))
         else:  # a list-valued expression spliced in: zero or more items, each preceded by sep
             out.append(("rep", [("lit", sep), ("hole", x, "item")], None))
     return _merge(out)
@@ -210,6 +213,7 @@ def comp_entry(comp):
     loop = ast.For(target=g.target, iter=g.iter, body=[], orelse=[])
     ast.copy_location(loop, comp)
     if g.ifs:
+        loop.gv_filters, loop.gv_elt = list(g.ifs), of_expr(comp.elt)
         return ("rep", [("opaque", ast.Constant(value="filtered tag loop: " + norm(g.ifs[0])[:60]))], loop)
     return ("rep", of_expr(comp.elt), loop)
 
